@@ -109,9 +109,10 @@ def extract(repo=None, cfg="dev", target_dir=None, use_cache=True):
             pass
         return out
     os.makedirs(os.path.join(CACHE, "facts"), exist_ok=True)
-    target_dir = target_dir or os.path.join(CACHE, "target-" + cfg)
+    suffix = os.environ.get("BL_TARGET_SUFFIX", "")
+    target_dir = target_dir or os.path.join(CACHE, "target-" + cfg + suffix)
     os.makedirs(target_dir, exist_ok=True)
-    lock = open(os.path.join(CACHE, "extract.%s.lock" % cfg), "w")
+    lock = open(os.path.join(CACHE, "extract.%s%s.lock" % (cfg, suffix)), "w")
     fcntl.flock(lock, fcntl.LOCK_EX)
     try:
         if use_cache and all(os.path.exists(w) for w in want):
